@@ -15,6 +15,8 @@ def dispatch (c : Case) : String :=
   | "exact" => handleExact c
   | "knob" => handleKnob c
   | "spanner" => handleSpanner c
+  | "trees" => handleTrees c
+  | "cands" => handleCands c
   | "approx" => handleApprox c
   | k => s!"diff {c.id} unknown-kind {k}"
 
